@@ -71,6 +71,13 @@ def build():
     msg = Source(MSG)
     br = Source(BR)
     frh = Source(FRH)
+    # [C10] "all calls complete (no self-deadlock)": frame condition over the three endpoints that share a socket behind a mutex
+    import scan_locks
+    dbl = scan_locks.scan_files(u.rw, ["vhost/src/vhost_user/frontend.rs", BR, "vhost/src/vhost_user/gpu_backend_req.rs"])
+    u.scan(["C10"], "no_second_lock_acquisition_while_guard_live", not dbl,
+           "in frontend.rs, backend_req.rs and gpu_backend_req.rs no function acquires the endpoint's non-reentrant mutex a second time "
+           "(`.lock()`, `self.node()`, or a `self.<method>()` of the same file that acquires it) while a let-bound guard of it is live "
+           "(`drop(guard)` ends it): a call cannot block on its own lock; offending: %s" % (dbl or "none"))
     u.raw("use vstd::prelude::*;\nverus! {\n")
     u.env("common.rs")
     ub.gen_enums(u, msg)
